@@ -210,6 +210,12 @@ def st_tree(clean: bool = False, reserved: Optional[bool] = None):
             args += ['--pyval-repr-maxlines=2', '--pyval-repr-linelen=10']
         if draw(st.integers(0, 7)) == 0:
             args.append('--no-sidebar')
+        if not clean and draw(st.integers(0, 7)) == 0:
+            # every root is put below a made-up package (the generated sources import through it now and then)
+            args.append('--prepend-package=' + draw(st.sampled_from(['lib.pack', 'lib', 'pkg', 'a.b.c'])))
+        if not clean and draw(st.integers(0, 9)) == 0:
+            args += draw(st.sampled_from([['--sidebar-expand-depth=1'], ['--sidebar-toc-depth=1'], ['--sidebar-expand-depth=9', '--sidebar-toc-depth=0'],
+                                          ['--project-version=1.0<b>'], ['--project-url=javascript:x'], ['--html-viewsource-base=http://x/y', '--project-base-dir=.'], ['--verbose'], ['--template-dir=.'], ['--buildtime=2020-01-01 00:00:00'], ['--pyval-repr-maxlines=0', '--pyval-repr-linelen=0']]))
         if clean:
             for lv, pat in draw(st.lists(st.tuples(st.sampled_from(['HIDDEN', 'HIDDEN', 'PRIVATE', 'PUBLIC']), st.sampled_from(PRIVACY_PATTERNS)), max_size=3)):
                 args.append('--privacy=%s:%s' % (lv, pat))
@@ -294,7 +300,7 @@ def check_tree(case: Dict[str, Any]) -> Tuple[List[Tuple[str, str]], Dict[str, A
         base_dump = _dump(s) if case.get('meta') else None
         stdout1 = r.stdout
     # (d) metamorphic: an unparsable file that nobody imports is inert
-    if base_dump is not None and not out:
+    if base_dump is not None and not out and not any(a.startswith('--prepend-package') for a in case['args']):
         files2 = dict(files)
         d = 'pkg/' if any(k.startswith('pkg/') for k in files) else ''
         extra = d + 'zz_broken_extra.py'
